@@ -624,6 +624,9 @@ func (p NewChannelReqPayload) MarshalBinary() ([]byte, error) {
 			return b, errors.New("lorawan: Freq must be a multiple of 200 for frequencies >= 2.4GHz")
 		}
 		freq = freq / 2
+	} else if freq/100 >= 12000000 {
+		// these encoded values are interpreted as 2.4GHz frequencies (200Hz steps) by the decoder
+		return b, errors.New("lorawan: Freq between 1.2GHz and 2.4GHz can not be encoded")
 	}
 
 	if freq/100 >= 16777216 { // 2^24
